@@ -234,11 +234,16 @@ def check(run: common.Run):
         w = WITNESS.get(f.id)
         if w is None:
             continue
-        with common.quiet():
-            out = mods["main"].format_code(w)
-        if is_valid(w) and not is_valid(out):
+        try:
+            with common.quiet():
+                out = mods["main"].format_code(w)
+        except Exception as e:  # noqa
+            out = None
+            failing_inputs.append({"kind": "known-finding-witness", "what": f"format_code raised {type(e).__name__} on the "
+                                   f"witness of {f.id} (listed as: valid in, invalid out)", "source": w})
+        if out is not None and is_valid(w) and not is_valid(out):
             run.known_finding(f.id, f"site={f.fields.get('site')} :: {f.text[:150]}")
-        else:
+        elif out is not None:
             common.log(f"note: finding {f.id} no longer reproduces")
 
     # ---- verdicts
@@ -256,7 +261,8 @@ def check(run: common.Run):
 
     run.coverage.update(
         evaluations=len(gitems) + len(rows) + fc["evaluations"] + len(SUB_CASES) * 3,
-        distinct_nontrivial=n_guard_nontrivial + fc["distinct"] + 8,
+        distinct_nontrivial=n_guard_nontrivial + fc["distinct"]
+        + len({(r["changed"], r["valid_new"], r["valid_old"]) for r in rows}),
         rule=("correspondence cases: (a) processing.fix(max_iter=1 | default) and chain driven by a scripted "
               "whole-text rule over 3 texts: ALL candidate tables 3->3 x ALL validity masks x 4 restoration "
               "behaviours x 3 starts (exhaustive); (b) format_file on temp files: all 8 rows of the decision table "
@@ -266,7 +272,8 @@ def check(run: common.Run):
               "seeded random scripts up to 58 texts. Non-trivial = a rollback really happened (a) / >= 2 passes of "
               "the multi-run phase with a distinct (trace, result) (c) / every row of (b)."),
         samples=[gitems[5], gitems[len(gitems) // 2], rows[3]] + fc["samples"][:2],
-        exhaustive={"guard_cases": True, "format_file_rows": True, "format_code_f4x4": run.tier != "quick"},
+        exhaustive=run.tier != "quick",
+        exhaustive_parts={"guard_cases": True, "format_file_rows": True, "format_code_f4x4": run.tier != "quick"},
         histogram=dict(hist) | {"format_code scripted: " + k: v for k, v in fc["histogram"].items()},
         correspondence_disagreements=len(disagreements) + n_more,
         sweep=dict(sweep) | {"corpus": {k: len(v) for k, v in valid_srcs.items()}, "jobs": len(jobs),
